@@ -1,6 +1,6 @@
 //! Small-scope document generators for AIGER (ASCII and binary).
 
-use mc_core::generic::{byte_sweep, dedup_docs, single_edit_neighbours, token_sequences, Doc, MARKERS};
+use mc_core::generic::{byte_sweep, comment_byte_docs, dedup_docs, digit_byte_docs, single_edit_neighbours, token_sequences, Doc, MARKERS};
 use mc_core::Tier;
 
 pub fn corpus(format: &str) -> Vec<Doc> {
@@ -77,6 +77,34 @@ pub fn inputs_seq(format: &str, tier: Tier, seq_len: usize) -> Inputs {
         let quick_base = matches!(base, "std" | "assignment-first" | "and" | "tiny");
         if (tier == Tier::Quick && quick_base) || (tier == Tier::Thorough && (8..=60).contains(&d.bytes.len())) {
             nb.extend(byte_sweep(d));
+        }
+    }
+    // number tokens followed by every byte value (output literal position, large M)
+    if format == "aag" {
+        nb.extend(digit_byte_docs("aag", b"aag 999999999 1 0 1 0\n2\n", b"\n", false));
+    } else {
+        nb.extend(digit_byte_docs("aig", b"aig 999999999 1 0 1 0\n", b"\n", false));
+    }
+    // comment / symbol text with every byte value in every lane
+    if format == "aag" {
+        nb.extend(comment_byte_docs("aag", b"aag 1 1 0 1 0\n2\n2\nc\n", b"last line\n"));
+        nb.extend(comment_byte_docs("aag-symbol", b"aag 1 1 0 1 0\n2\n2\ni0 ", b"c\n"));
+    } else {
+        nb.extend(comment_byte_docs("aig", b"aig 1 1 0 1 0\n2\nc\n", b"last line\n"));
+        // and-gate deltas of 2..=11 groups whose last group carries bits beyond the 64th, followed by
+        // enough data to have the whole encoding buffered
+        for n in 2..=11usize {
+            for last in [0x00u8, 0x01, 0x02, 0x03, 0x40, 0x7f] {
+                for first in [0x80u8, 0x82, 0x86] {
+                    let mut d = b"aig 3 2 0 1 1\n6\n".to_vec();
+                    d.push(first);
+                    d.extend(std::iter::repeat(0x80u8).take(n - 2));
+                    d.push(last);
+                    d.push(0x02);
+                    d.extend_from_slice(b"i0 abcdefghijkl\nc\nx\n");
+                    nb.push(Doc::new(format!("aig|delta-groups{n}-last{last:#04x}-first{first:#04x}"), d));
+                }
+            }
         }
     }
     let sequences = dedup_docs(token_sequences(&tokens(format), seq_len));
